@@ -10,6 +10,7 @@ import (
 	"encoding/json"
 	"errors"
 	"fmt"
+	"hash/fnv"
 	"io"
 	"reflect"
 	"regexp"
@@ -263,6 +264,13 @@ func (m *machine) convArg(raw json.RawMessage, t reflect.Type) (reflect.Value, e
 		return reflect.ValueOf(n).Convert(t), nil
 	case reflect.Int, reflect.Int64, reflect.Int32:
 		var n int64
+		var big struct {
+			Pow  uint  `json:"pow"`
+			Plus int64 `json:"plus"`
+		}
+		if json.Unmarshal(raw, &big) == nil && big.Pow > 0 { // a value beyond 32 bits, passed symbolically: 2^pow + plus
+			return reflect.ValueOf(int64(1)<<big.Pow + big.Plus).Convert(t), nil
+		}
 		if err := json.Unmarshal(raw, &n); err != nil {
 			return reflect.Value{}, err
 		}
@@ -358,6 +366,19 @@ func strN(s string, want int) int {
 		last = n
 	}
 	return last
+}
+
+// digest keeps a long rendering comparable without logging all of it: the first 1500 bytes, the 64-bit FNV-1a hash of the
+// whole, the last 500 bytes (equal renderings stay equal, different ones stay different; short ones are logged as they are).
+func digest(b []byte) []byte {
+	if len(b) <= 3000 {
+		return b
+	}
+	h := fnv.New64a()
+	h.Write(b)
+	out := append([]byte{}, b[:1500]...)
+	out = h.Sum(out)
+	return append(out, b[len(b)-500:]...)
 }
 
 // malformedSuffix: the rendering carries "malformed!" behind the printed size (a topic or filter that itself reads
@@ -465,6 +486,9 @@ func (m *machine) runStep(idx int, s step) (stop bool) {
 		if s.Refs {
 			e["refs"] = true
 		}
+		if len(s.Args) == 1 && bytes.Contains(s.Args[0], []byte(`"pow"`)) { // what the model is told: "beyond 2^31 - 1"
+			e["nargs"] = []int{2147483647}
+		}
 		m.attachObs(e, s.H, s.NoObs)
 		m.emit(e)
 
@@ -494,7 +518,7 @@ func (m *machine) runStep(idx int, s step) (stop bool) {
 		}
 		m.written[s.H] = append([]byte{}, w.accepted...)
 		e := obj{"ev": "WriteTo", "h": s.H, "writes": calls, "n": int(n), "err": errTag(err),
-			"offered": offered, "accepted": ints(w.accepted), "wkind": w.plan.Kind, "wk": w.plan.K,
+			"offered": offered, "wkind": w.plan.Kind, "wk": w.plan.K,
 			"strN": printedSize(p, int(n)), "strN0": -1, "type": typeName(p)}
 		if ok0 {
 			e["strN0"] = strN(str0, int(n))
@@ -528,6 +552,12 @@ func (m *machine) runStep(idx int, s step) (stop bool) {
 		data := toBytes(s.Bytes)
 		if s.From != 0 {
 			data = m.written[s.From]
+			if s.Key == "flip" { // the same frame with other content in its last bytes (same length, same header)
+				data = append([]byte{}, data...)
+				for i := len(data) - 1; i >= 2 && i >= len(data)-8; i-- {
+					data[i] ^= 1
+				}
+			}
 		}
 		plan := readerPlan{}
 		if s.Reader != nil {
@@ -535,7 +565,7 @@ func (m *machine) runStep(idx int, s step) (stop bool) {
 		}
 		m.streams[s.Stream] = newScriptedReader(data, plan)
 		delete(m.bufios, s.Stream)
-		if s.Key != "" { // the caller hands ReadPacket a standard reader (on top of the transport, or holding the bytes itself)
+		if s.Key != "" && s.Key != "flip" { // the caller hands ReadPacket a standard reader (on top of the transport, or holding the bytes itself)
 			m.bufios[s.Stream] = wrapReader(s.Key, m.streams[s.Stream])
 		}
 		if plan.Rich {
@@ -566,6 +596,7 @@ func (m *machine) runStep(idx int, s step) (stop bool) {
 		}
 		m.steps = 0
 		stepLimit = budgetFor(len(r.data) - r.pos)
+		startTrail(len(r.data)-r.pos <= 300 && br == nil)
 		alloc0 := totalAlloc()
 		p, err := mq.ReadPacket(rd)
 		alloc := clampAlloc(totalAlloc() - alloc0)
@@ -577,8 +608,16 @@ func (m *machine) runStep(idx int, s step) (stop bool) {
 		e := obj{"ev": "Read", "stream": s.Stream, "h": s.H, "pos0": pos0, "pos1": pos1, "calls": r.takeCalls(), "wrapped": br != nil,
 			"ok": err == nil, "nilpkt": p == nil, "typednil": p != nil && isNilPacket(p), "isE": errors.Is(err, ErrInjected), "isEOF": errors.Is(err, io.EOF),
 			"steps": int(stepCount()), "alloc": int(alloc)}
+		if tr := takeTrail(); len(tr) > 0 {
+			e["trail"] = tr
+		}
 		if err != nil {
 			e["errtext"] = err.Error()
+		}
+		if !isNilPacket(p) && err != nil {
+			// a packet AND an error (logged above as ok = false, nilpkt = false): the program goes on without the packet
+			delete(m.pkts, s.H)
+			p = nil
 		}
 		if !isNilPacket(p) {
 			m.pkts[s.H] = p
@@ -677,8 +716,11 @@ func (m *machine) runStep(idx int, s step) (stop bool) {
 		if re, failed := reencode(p); !failed && len(re) > 0 {
 			first, encLen = re[0], len(re)
 		}
-		e := obj{"ev": "Diag", "h": s.H, "type": typeName(p), "first": first, "string": ints([]byte(str)), "dump": ints(dump.Bytes()),
+		e := obj{"ev": "Diag", "h": s.H, "type": typeName(p), "first": first, "string": ints(digest([]byte(str))), "dump": ints(digest(dump.Bytes())),
 			"malformed": malformedSuffix(str), "strN": strN(str, encLen)}
+		if len(str) > 3000 || dump.Len() > 3000 {
+			e["digested"] = true
+		}
 		e["hasWF"] = false
 		if wf, ok := p.(mq.HasWellFormed); ok {
 			e["hasWF"] = guarded("WellFormed", "WellFormed", func() { e["wfErr"] = wf.WellFormed() != nil })
